@@ -452,6 +452,7 @@ func poolDiscipline(c *Ctx, rule string) {
 			}
 			// reset-before-put
 			putOK := true
+			putWhy := ""
 			for _, pt := range puts {
 				fc := newFnCFG(pt.fd.Body, info)
 				if len(pt.call.Args) != 1 {
@@ -460,7 +461,12 @@ func poolDiscipline(c *Ctx, rule string) {
 				}
 				id, ok := pt.call.Args[0].(*ast.Ident)
 				if !ok {
-					putOK = false
+					if okFresh, why := freshEmptyValue(info, pt.call.Args[0]); okFresh {
+						continue // a fresh, empty object needs no reset
+					} else {
+						putOK = false
+						putWhy = "Put(" + types.ExprString(pt.call.Args[0]) + ") at " + c.pos(pt.call.Pos()) + ": " + why
+					}
 					continue
 				}
 				obj := info.ObjectOf(id)
@@ -472,7 +478,15 @@ func poolDiscipline(c *Ctx, rule string) {
 				}
 				if !dominated {
 					putOK = false
+					if putWhy == "" {
+						putWhy = "Put(" + id.Name + ") at " + c.pos(pt.call.Pos()) + " is not dominated by " + id.Name + ".Reset()"
+					}
 				}
+			}
+			if getWhy == "" {
+				getWhy = putWhy
+			} else if putWhy != "" {
+				getWhy += "; " + putWhy
 			}
 			c.check(getOK || putOK, rule, poolKey+"|reset-discipline", c.pos(pv.Pos()),
 				fmt.Sprintf("pooled objects are reset (on acquisition: %v, before release: %v)", getOK, putOK),
@@ -666,4 +680,36 @@ func variadicErrors(c *Ctx, rule string) {
 	}
 	c.count("variadic_error_functions", n)
 	c.floor(rule, 4)
+}
+
+// freshEmptyValue: new(T), &T{}, bytes.NewBuffer(nil), bytes.NewBuffer(make([]byte, 0[, n])), bytes.NewBufferString("").
+func freshEmptyValue(info *types.Info, e ast.Expr) (bool, string) {
+	e = ast.Unparen(e)
+	switch x := e.(type) {
+	case *ast.UnaryExpr:
+		if x.Op == token.AND {
+			if cl, ok := ast.Unparen(x.X).(*ast.CompositeLit); ok && len(cl.Elts) == 0 {
+				return true, ""
+			}
+		}
+	case *ast.CallExpr:
+		if id, ok := x.Fun.(*ast.Ident); ok && id.Name == "new" {
+			return true, ""
+		}
+		if fn := calleeOf(info, x); fn != nil && fullName(fn) == "bytes.NewBuffer" && len(x.Args) == 1 {
+			a := ast.Unparen(x.Args[0])
+			if id, ok := a.(*ast.Ident); ok && id.Name == "nil" {
+				return true, ""
+			}
+			if mk, ok := a.(*ast.CallExpr); ok {
+				if id, ok := mk.Fun.(*ast.Ident); ok && id.Name == "make" && len(mk.Args) >= 2 {
+					if v, isC := constInt(info, mk.Args[1]); isC && v == 0 {
+						return true, ""
+					}
+					return false, "the buffer is created over make([]byte, " + types.ExprString(mk.Args[1]) + "), whose LENGTH is not zero: it already contains that many zero bytes, which the next render sends ahead of its document (the size belongs in the capacity argument)"
+				}
+			}
+		}
+	}
+	return false, "the value put into the pool is neither a variable that was reset nor a fresh empty object"
 }
